@@ -158,12 +158,13 @@ class Meter:
     def __enter__(self):
         global _active
         _install()
+        self._outer = _active      # meters nest: the outer one resumes when this one is done
         _active = self
         return self
 
     def __exit__(self, *a):
         global _active
-        _active = None
+        _active = getattr(self, '_outer', None)
         return False
 
     def pause(self):
